@@ -13,7 +13,7 @@ from props.common import *
 from props.parts import c14_blake as SEQ      # the streaming / whole-life ops (blake2seq, blakeseqs …) and their execution on the real code
 
 ID = 'C11'
-LEAN_PROOFS = ['Proofs.C11']
+LEAN_PROOFS = ['Proofs.C11', 'Proofs.C11_Kat']
 GEN_ITEMS = ['BlakeG']
 RULE = ('op lines = (variant, salt/parameters, message, bit length); message lengths 0..4 blocks at every block multiple +-2 and '
         'around the spill boundaries 55/56/64, 111/112/128 (+-2), every L mod 8, salts and every BLAKE2 parameter at edge values, '
@@ -24,7 +24,7 @@ RULE = ('op lines = (variant, salt/parameters, message, bit length); message len
         'update(tail, padding=True) with tails 1, B-1, B, B+1 (`blake2seq` digest + bit counts against hashlib, `blake2seq.trace` (t,f) of every compression over all the calls: '
         'the flag on the last block of the message only); BLAKE: salted / bit-length / refused call, then default call and streams; distinct lines; '
         'non-trivial = the implementation returned a digest')
-TRUSTED = ['Spec.Blake is typed from the BLAKE submission; the only executable cross-check of it in this image are the known answers of tests/test_blake.py (corpus/C11.ops)',
+TRUSTED = ['Spec.Blake is typed from the BLAKE submission; the only executable cross-check of it in this image are the known answers of tests/test_blake.py (corpus/C11.ops); the submission\'s digests of the one-byte message 00 for BLAKE-224/256/384/512 hold for Spec.Blake in the kernel and for the model through blake_refines (Proofs.C11_Kat)',
            'Spec.Blake2 is typed from RFC 7693 and cross-checked against hashlib.blake2b/blake2s through check_impl on every line hashlib accepts',
            'struct.unpack / Bits(bytes,bitorder=1).split / pack plumbing of blake.py is modelled by its meaning (Model.Blake.wordsBE/wordsLE/digest)',
            'the counter trace of the real code is observed by wrapping the name `Bits` in crysp.blake (every Bits(x,2*wsize) call is the counter injection)']
